@@ -1,10 +1,11 @@
 package headerCheck
 
 import (
+	"math/bits"
+
 	"github.com/ElrondNetwork/elrond-go/data"
 	"github.com/ElrondNetwork/elrond-go/data/block"
 )
-
 
 type verifNoFallback struct{}
 
@@ -14,6 +15,9 @@ func (*verifNoFallback) IsInterfaceNil() bool                                  {
 func Verif_C17_quorum() {
 	// group sizes: every size up to maxSmall, and larger ones around the byte/word boundaries of the bitmap
 	large := []int{57, 63, 64, 65, 100, 127, 128, 129, 400}
+	if verifParam("largeSet") == 0 {
+		large = []int{57, 64, 65, 128}
+	}
 	small := verifParam("maxSmall")
 	k := verifChoice("n", small+len(large))
 	n := k + 1
@@ -31,9 +35,22 @@ func Verif_C17_quorum() {
 	err := hsv.verifyConsensusSize(keys, &block.Header{PubKeysBitmap: bitmap})
 	if err == nil {
 		real := 0
-		for i := 0; i < n; i++ {
-			if bitmap[i/8]&(1<<uint(i%8)) != 0 {
-				real++
+		if n <= 16 {
+			for i := 0; i < n; i++ { // independent bit-by-bit count
+				if bitmap[i/8]&(1<<uint(i%8)) != 0 {
+					real++
+				}
+			}
+		} else {
+			// large groups: whole bytes are counted with the library population count (a bit-by-bit count of 400
+			// symbolic bits against it is beyond the solver), the bits of the last, partial byte one by one
+			for i := 0; i < n/8; i++ {
+				real += bits.OnesCount8(bitmap[i])
+			}
+			for i := n / 8 * 8; i < n; i++ {
+				if bitmap[i/8]&(1<<uint(i%8)) != 0 {
+					real++
+				}
 			}
 		}
 		verifAssert(real >= n*2/3+1, "accepted with fewer real signers than the threshold")
